@@ -145,16 +145,30 @@ class SimFS:
         self._orig_open = None
         self._orig_exists = None
         self._orig_isfile = None
+        self.sim_cwd = None
 
     # -- plumbing -----------------------------------------------------------------
-    def owns(self, path):
+    def key(self, path):
+        """absolute name of `path` on the simulated tree, or None when it is not on it.
+        Relative names are resolved against the simulated working directory (`sim_cwd`, a
+        directory under the root) when one is set; otherwise they belong to the real tree."""
         try:
             p = os.fspath(path)
         except TypeError:
-            return False
+            return None
         if isinstance(p, bytes):
             p = p.decode()
-        return p == self.root or p.startswith(self.root + "/")
+        if not isinstance(p, str):
+            return None
+        if self.sim_cwd and not p.startswith("/"):
+            p = os.path.normpath(self.sim_cwd + "/" + p)
+            self.stats["relative_names_resolved"] += 1
+        if p == self.root or p.startswith(self.root + "/"):
+            return p
+        return None
+
+    def owns(self, path):
+        return self.key(path) is not None
 
     def install(self):
         assert self._orig_open is None
@@ -167,20 +181,20 @@ class SimFS:
         def sim_open(file, mode="r", buffering=-1, encoding=None, errors=None, newline=None, closefd=True, opener=None):
             if not fs.owns(file):
                 return fs._orig_open(file, mode, buffering, encoding, errors, newline, closefd, opener)
-            return fs.open(os.fspath(file), mode, buffering, encoding, errors, newline)
+            return fs.open(fs.key(file), mode, buffering, encoding, errors, newline)
 
         def sim_exists(p):
             if fs.real_dir and fs.owns(p):
-                return os.fspath(p) == fs.root or fs._orig_exists(fs._real(p))
+                return fs.key(p) == fs.root or fs._orig_exists(fs._real(p))
             if fs.owns(p):
-                return os.fspath(p) in fs.files or os.fspath(p) == fs.root
+                return fs.key(p) in fs.files or fs.key(p) == fs.root or sim_isdir(p)
             return fs._orig_exists(p)
 
         def sim_isfile(p):
             if fs.real_dir and fs.owns(p):
                 return fs._orig_isfile(fs._real(p))
             if fs.owns(p):
-                return os.fspath(p) in fs.files
+                return fs.key(p) in fs.files
             return fs._orig_isfile(p)
 
         # a refactored dump may write a temporary file and rename it, remove a stale file,
@@ -191,6 +205,9 @@ class SimFS:
         self._orig_isdir = os.path.isdir
 
         def _p(x):
+            k = fs.key(x)
+            if k is not None:
+                return k
             x = os.fspath(x)
             return x.decode() if isinstance(x, bytes) else x
 
@@ -254,6 +271,8 @@ class SimFS:
                 return _p(path) == fs.root or any(f.startswith(_p(path).rstrip("/") + "/") for f in fs.files)
             return self._orig_isdir(path)
 
+        self._orig_getcwd = os.getcwd
+        os.getcwd = lambda: fs.sim_cwd if fs.sim_cwd else fs._orig_getcwd()
         os.replace = sim_replace
         os.rename = sim_replace
         os.remove = sim_remove
@@ -277,6 +296,7 @@ class SimFS:
             os.path.isfile = self._orig_isfile
             for n, f in self._orig_os.items():
                 setattr(os, n, f)
+            os.getcwd = self._orig_getcwd
             os.path.getsize = self._orig_getsize
             os.path.isdir = self._orig_isdir
             self._orig_open = None
@@ -296,7 +316,7 @@ class SimFS:
         self.armed_next.clear()
 
     def _real(self, path):
-        return os.path.join(self.real_dir, os.fspath(path)[len(self.root) :].lstrip("/").replace("/", "__"))
+        return os.path.join(self.real_dir, self.key(path)[len(self.root) :].lstrip("/").replace("/", "__"))
 
     def open(self, path, mode="r", buffering=-1, encoding=None, errors=None, newline=None):
         self.stats["opens"] += 1
